@@ -3,8 +3,8 @@ import PoryProofs.ErrLoc3
 Located parser errors, part 4: the mutual block of the 13 statement-level functions, by one induction on
 the fuel (`locAll`).
 -/
-namespace Pory.Parser
-open Pory
+namespace Pory.ErrLoc
+open Pory Pory.Parser
 
 section
 variable (T : List Tok) (E : Tok)
@@ -150,4 +150,4 @@ theorem locAll : ∀ n : Nat, LocAll T E n
   | n + 1 => locAll_succ T E (locAll n)
 
 end
-end Pory.Parser
+end Pory.ErrLoc
